@@ -249,7 +249,8 @@ def timeout_callback(self, packet_id):
 spec('TCPPacketGenerator', 'put', what='duplicate ACK counted; new ACK leaves fast recovery (dupack >= 3 -> dupack_over) and '
                                        'resets the counter; third duplicate: window rule + retransmit; further: += MSS; new '
                                        'ACK: Jacobson/Karels with gains 1/8, 1/4, RTO = srtt + 4 rttvar, last_ack, window '
-                                       'rule, the segment\'s timer stopped, window token posted')('''
+                                       'rule, the timer and the stored copy of *every* segment the cumulative ACK covers (and of the segment that '
+                                       'triggered it) dropped, window token posted')('''
 def put(self, ack):
     assert ack.flow_id >= 10000
     ackno = ack.ack
@@ -278,10 +279,10 @@ def put(self, ack):
         self.rto = self.rtt_estimate + 4 * self.est_deviation
         self.last_ack = ackno
         self.congestion_control.ack_received(sample_rtt, self.env.now)
-        if ack.packet_id in self.timers:
-            self.timers[ack.packet_id].stop()
-            del self.timers[ack.packet_id]
-            del self.sent_packets[ack.packet_id]
+        for pid in [p for p in self.timers if p < ackno or p == ack.packet_id]:
+            self.timers[pid].stop()
+            del self.timers[pid]
+            del self.sent_packets[pid]
         self.cwnd_avaialbe.put(True)
 ''')
 
